@@ -432,3 +432,62 @@ func ZZ_C12_Rows(op1, op2, agg, alen, withAddr int) {
 	}
 	zzvrf.Reach("end")
 }
+
+// ZZ_C12_TxFold: the fold of a transaction-level (level 0) or trace-level
+// (level 1) integration: no event, two block fields carry byte-string filters
+// (op1 on the "to" field, op2 on the "from" field, one argument each),
+// aggregation agg. The row is emitted iff the declared fold accepts.
+func ZZ_C12_TxFold(op1, op2, agg, level int) {
+	argA, argB := make([]byte, 20), make([]byte, 20)
+	for j := range argA {
+		argA[j] = byte(0x10 + j)
+		argB[j] = byte(0x50 + j)
+	}
+	toName, fromName := "tx_to", "tx_signer"
+	if level == 1 {
+		toName, fromName = "trace_action_to", "trace_action_from"
+	}
+	bds := []BlockData{
+		{Name: toName, Column: "c_to", Filter: Filter{Op: zzOps[op1], Arg: []string{eth.EncodeHex(argA)}}},
+		{Name: fromName, Column: "c_from", Filter: Filter{Op: zzOps[op2], Arg: []string{eth.EncodeHex(argB)}}},
+	}
+	tbl := wpgTable("t", "c_to", "c_from")
+	ig, err := New("ig1", Event{}, bds, tbl, Notification{}, zzAggs[agg])
+	zzvrf.Assert(err == nil, "new-ok")
+	if err != nil {
+		return
+	}
+	lg := zzMakeLog(0, nil)
+	to, from := zzvrf.Bytes("to", 20, 20), zzvrf.Bytes("from", 20, 20)
+	if level == 1 {
+		lg.lwc.t.TraceActions = []eth.TraceAction{{To: to, From: from}}
+		lg.lwc.ta = &lg.lwc.t.TraceActions[0]
+	} else {
+		lg.lwc.t.To = to
+		lg.lwc.t.From = from
+	}
+	var rows [][]any
+	var perr error
+	panicked := false
+	func() {
+		defer func() {
+			if r := recover(); r != nil {
+				panicked = true
+			}
+		}()
+		rows, _, perr = ig.processTx(nil, lg.lwc, &sync.Mutex{}, nil)
+	}()
+	zzvrf.Assert(!panicked && perr == nil, "no-panic-no-error")
+	if panicked || perr != nil {
+		return
+	}
+	r1 := zzBytesRef(zzOps[op1], to, [][]byte{argA})
+	r2 := zzBytesRef(zzOps[op2], from, [][]byte{argB})
+	want := zzvrf.Or(r1, r2)
+	if zzAggs[agg] == "and" || zzAggs[agg] == "AND" {
+		want = zzvrf.And(r1, r2)
+	}
+	zzvrf.Assert(len(rows) <= 1, "at-most-one-row")
+	zzvrf.Assert((len(rows) == 1) == want, "row-emitted-iff-filters-accept")
+	zzvrf.Reach("end")
+}
